@@ -32,6 +32,9 @@ def make(check, self_inputs=False, budget_quick=60, budget_thorough=1500, tasks=
             n = (budget_quick if tier == "quick" else budget_thorough) * boost
             for i in range(n):
                 inp = task.gen_self(rng) if self_inputs else task.gen(rng)
+                if rng.random() < 0.12:
+                    # whole-number annotations handed over in the caller's dtype (int64 / int32 / float32 arrays)
+                    inp = task.gen_typed(rng, self_inputs) or inp
                 inp["transform"] = {"shift": str(Fr(rng.randint(1, 128), 32)), "seed": rng.randint(0, 10 ** 6)}
                 if getattr(task, "BIG_SHIFT", False) and rng.random() < 0.25:
                     # hours into a recording: still exact in binary64 on the dyadic lattice, far beyond single precision
